@@ -28,6 +28,19 @@ Theorem C11_accepted_iff_long_enough : forall buf hdr rest,
    implied_length (nth 2 hdr 0) (nth 3 hdr 0) (nth 4 hdr 0) (nth 5 hdr 0) <= lenN buf).
 Proof. exact accepted_iff_long_enough. Qed.
 
+(* a buffer shorter than its declared sections or strings: the corresponding error kind *)
+Theorem C11_short_buffer : forall buf hdr rest,
+  rd_words 6 buf = Some (hdr, rest) -> nth 0 hdr 0 = cache_magic -> nth 1 hdr 0 = cache_version ->
+  parse buf = match layout_result (nth 2 hdr 0) (nth 3 hdr 0) (nth 4 hdr 0) (nth 5 hdr 0) (lenN buf) with
+              | Some e => PErr e
+              | None => parse buf
+              end.
+Proof.
+  intros buf hdr rest H Hm Hv.
+  destruct (layout_result (nth 2 hdr 0) (nth 3 hdr 0) (nth 4 hdr 0) (nth 5 hdr 0) (lenN buf)) as [e|] eqn:E; [|reflexivity].
+  pose proof (parse_by_length buf hdr rest H Hm Hv) as P. cbv zeta in P. rewrite E in P. exact P.
+Qed.
+
 (* the written file has exactly the length its header implies, and reads back *)
 Theorem C11_roundtrip : forall s, struct_wf s = true -> parse (ser s) = POk (cache_of_struct s).
 Proof. exact parse_ser. Qed.
